@@ -9,7 +9,7 @@ TRUSTED = {
     'A3': 'A3 allocation bound: a str/String has at most isize::MAX bytes, a Vec at most isize::MAX elements',
     'A4': 'A4 documented std behaviour of the transparent wrappers (vx_* functions whose body is the std call: slicing, find, trim_end_matches, split, '
           'repeat, Cow operations, mem::take, ...), vstd\'s own assume_specifications and vstd::utf8; in U9 also one axiom about a std function that is otherwise abstract there: '
-          'str::lines(s) is lines_c(s) (the \'\\n\'-separated pieces, a terminated piece without one \'\\r\' before its \'\\n\', no final empty piece) — checked on the real str::lines within scope by the bounded contract A4.std_models',
+          'str::lines(s) is lines_c(s) (the \'\\n\'-separated pieces, a terminated piece without one \'\\r\' before its \'\\n\', the unterminated last piece as it is — carriage return included — and dropped when empty) — checked literally on the real str::lines within scope by the bounded contract A4.std_models — and char::is_whitespace(\'\\r\') (cr_is_ws)',
     'A5': 'A5 Fragment accessors are pure (each accessor returns its ghost twin)',
     'A6': 'A6 (discharged as far as shape and safety go) smawk::online_column_minima(init, n, f) calls f(m, i, j) only with i < j < n, i < m.len() and a well-shaped table m, never panics, '
           'terminates, and returns a back-pointer table of length n with m[0].0 == 0 and m[k].0 < k: PROVED in unit U24 on the source of the smawk version Cargo.lock pins (read from the '
@@ -75,7 +75,7 @@ KANI = {'K1.default': K1, 'K1.no-default-features': K1MIN, 'K2.first_fit_n3': K2
 
 PROPS = {
     'C01': {
-        'units': ['U11', 'U6', 'U1', 'U2', 'U12', 'U13', 'U14', 'U15', 'U17', 'U20', 'U22'], 'level': 'other', 'trusted': ['A1', 'A3', 'A4', 'A5', 'A9', 'A10', 'A12', 'A13', 'A14', 'A15', 'A17', 'R15', 'R16'],
+        'units': ['U11', 'U6', 'U1', 'U2', 'U12', 'U13', 'U14', 'U15', 'U16', 'U17', 'U20', 'U22'], 'level': 'other', 'trusted': ['A1', 'A3', 'A4', 'A5', 'A9', 'A10', 'A12', 'A13', 'A14', 'A15', 'A17', 'R15', 'R16'],
         'proved_part': 'Verus (all inputs), for the whole text: wrap returns lines such that line k is indent_k ++ text[a_k .. b_k] ++ (nothing | a single hyphen), with a_0 == 0, '
                        'b_k <= a_(k+1) (slices in order, never overlapping), everything between two consecutive slices being ASCII spaces followed by at most one line ending, and '
                        'only spaces after the last slice — so nothing but such spaces and line endings is lost, and nothing is duplicated, reordered or invented (U11: wrap, '
@@ -123,10 +123,10 @@ PROPS = {
                        'wrap_columns (A11), Word::from, break_words, indent, dedent, fill_inplace (incl. from_utf8().unwrap()), wrap, wrap_single_line, wrap_single_line_slow_path (incl. char-boundary safety of its slices), fill_slow_path, unfill (incl. the #466 class of slice panics), WordSplitter::split_points, WrapAlgorithm::wrap, strip_ansi_escape_sequences, find_words_ascii_space, find_words_unicode_break_properties, split_words and Word::break_apart (closures, R16), fill, refill, Options::new / from / the setters, LineEnding::as_str, LineNumbers::get (R17), and the two functions of the smawk crate optimal-fit runs (online_column_minima, smawk_inner; U24).',
         'bounded_part': 'BEC: every public function under catch_unwind with a hang watchdog over the adversarial alphabet, widths {0,1,2,7,usize::MAX}, all option combinations, '
                         'extreme penalties; only here: "optimal-fit never reports an overflow error for usize-valued widths and penalties" (A14: float magnitudes), the inside of the dependencies '
-                        '(unicode-linebreak, unicode-width tables; smawk is verified in U24), the three-arm dispatch WordSeparator::find_words (Box<dyn Iterator>) and the thin constructors.',
+                        '(unicode-linebreak, unicode-width tables; smawk is verified in U24), the call through a WordSeparator::Custom function pointer (the dispatch WordSeparator::find_words itself is under contract in U13) and the thin constructors.',
         'explanation': 'Mixed, mostly proved: panic-freedom and termination are proof obligations of every Verus unit — every function the statement names, for all inputs, '
                        'relative to the shape contracts of unicode-linebreak and unicode-width (A13, A2; smawk\'s is proved in U24); the overflow-error clause of optimal-fit needs float magnitudes and is bounded-only, '
-                       'as are the dependency internals and the Box<dyn Iterator> dispatch of find_words.',
+                       'as are the dependency internals and what a user-supplied Custom function does.',
     },
     'C05': {
         'units': ['U3', 'U11', 'U12', 'U17', 'U16', 'U14', 'U6', 'U22'], 'level': 'other', 'kani': [K1, K1MIN, K3], 'trusted': ['A1', 'A2', 'A3', 'A4', 'A5', 'A8', 'A9', 'A12', 'A15', 'A16', 'A17', 'R15', 'R16'],
@@ -283,23 +283,23 @@ PROPS = {
         'explanation': 'Mixed: fill_inplace has a complete functional contract relative to its two callees; agreement with wrap is relational and bounded.',
     },
     'C18': {
-        'units': ['U9', 'U8'], 'level': 'proof', 'trusted': ['A3', 'A4', 'A12'],
+        'units': ['U9', 'U8'], 'level': 'proof', 'trusted': ['A3', 'A4', 'A9', 'A12'],
         'proved_part': 'Verus, all inputs (U9): there is a margin length mlen such that, when some line has text, a string m of that length is the LONGEST string of '
                        'whitespace characters that is a prefix of every line containing a non-whitespace character (is_margin: common, and no longer common one exists); the '
                        'result is every line with text without its first mlen characters, every whitespace-only line empty, one output line per input line (each '
                        'followed by a newline), the final newline removed exactly when the input does not end in one. `str::lines` and `char::is_whitespace` are abstract (A4). '
                        'The two "therefore" corollaries are theorems over that postcondition (U9, with the one std fact that str::lines is lines_c — the \'\\n\'-separated pieces, a terminated piece '
-                       'without one \'\\r\' before its \'\\n\', no final empty piece —, checked on the real str::lines by the bounded contract A4.std_models): c18_dedent_idempotent_cr — for every text '
+                       'without one \'\\r\' before its \'\\n\', the unterminated last piece as it is and dropped when empty —, checked on the real str::lines by the bounded contract A4.std_models): c18_dedent_idempotent_cr — for every text '
                        'outside known finding KF4\'s input class (kf4_free: no line that is terminated by a line break and has text ends in a carriage return; carriage returns allowed otherwise), whatever the contract '
                        'allows as dedent(s) and as dedent of that are equal (after the longest common margin is removed no common margin is left: second_margin_empty); c18_dedent_of_indent — with indent(s, p) in the closed form U8 proves of it (indent_spec), for every whitespace prefix p '
-                       'without line break or CR and every s without CR (the statement\'s scope), dedent(indent(s, p)) == dedent(s) (the margin of the indented lines is p followed by the margin of the lines: margin_of_mapped; '
+                       'without a line break (\'\\n\'; carriage returns and non-ASCII whitespace allowed — second std fact: \'\\r\' is whitespace) and every s without CR, dedent(indent(s, p)) == dedent(s) (the margin of the indented lines is p followed by the margin of the lines: margin_of_mapped; '
                        'whitespace-only lines stay whitespace-only; the final newline is kept). All are probed for vacuity; without kf4_free the idempotence proof fails.',
-        'bounded_part': 'BEC: the same against an independent implementation on every string in scope; both corollaries again by execution on the real functions; on KF4\'s input class '
-                        '(the negation of kf4_free, computed on the input) idempotence fails and is reported as the pinned known finding — a failure outside it would be a violation.',
+        'bounded_part': 'BEC: the same against an independent implementation on every string in scope; both corollaries again by execution on the real functions (prefixes: blanks, tab, carriage return, U+3000, and two with a line break); on KF4\'s input class '
+                        '(the negation of kf4_free, computed on the input) idempotence fails, with a prefix containing \'\\n\' (KF8) the second corollary fails: both are reported as pinned known findings — a failure outside them would be a violation.',
         'explanation': 'Proof: the first two sentences of the statement (the margin rule, the shape of the output) are the postcondition of dedent, discharged by Verus on '
                        'the extracted function (three loops, std iterators through assumed std contracts). The two "therefore" corollaries are proved as theorems over that postcondition (and U8\'s for indent): '
-                       'the second for texts without carriage returns — all it claims —, idempotence for every text outside the input class of known finding KF4, on which it demonstrably fails '
-                       '("a\\r\\r\\n": a line\'s own text ends in a carriage return). Proof in the sense of DESIGN §2.7 (a) cross-unit composition U8 -> U9 and (b) proved on the exact complement of an open known finding.',
+                       'the second for every text without carriage returns and every whitespace prefix without a line break — with a \'\\n\' in the prefix it is false of the code, known finding KF8 —, '
+                       'idempotence for every text outside the input class of known finding KF4, on which it demonstrably fails ("a\\r\\r\\n": a line\'s own text ends in a carriage return). Proof in the sense of DESIGN §2.7 (a) cross-unit composition U8 -> U9 and (b) proved on the exact complements of the two open known findings.',
     },
     'C19': {
         'units': ['U8'], 'level': 'proof', 'trusted': ['A3', 'A4', 'A12'],
